@@ -83,7 +83,7 @@ def ctxTypes : List CtxType :=
 /-- parsed modifier description (first-order; `toMod` builds the machine) -/
 inductive ModSpec where
   | negate (x y z : Bool) | scale (x y z : Rat) | swizzle (s : Mod.Swz)
-  | dzAxial (lo hi : Rat) | dzRadial (lo hi : Rat) | exp (x y z : Nat) | dscale | dlerp (speed : Rat)
+  | dzAxial (lo hi : Rat) | dzRadial (lo hi : Rat) | exp (x y z : Nat) | expq | dscale | dlerp (speed : Rat)
   | accBy (a : Nat) | sconv (d : Dim) | sadd (d : Dim) (p : V3)
   deriving DecidableEq, Repr, Inhabited
 
@@ -94,6 +94,7 @@ def ModSpec.toMod (id : Nat) : ModSpec → Mod
   | .dzAxial lo hi => Mod.deadZoneAxial id lo hi
   | .dzRadial lo hi => Mod.deadZoneRadialM id lo hi
   | .exp x y z => Mod.expCurve id x y z
+  | .expq => Mod.expFrac id
   | .dscale => Mod.deltaScale id
   | .dlerp s => Mod.deltaLerp id s
   | .accBy a => Mod.accumulateBy id a
@@ -106,7 +107,13 @@ def parseMod? : List String → Option ModSpec
   | ["swizzle", s] => do some (.swizzle (← parseSwz? s))
   | ["dzaxial", lo, hi] => do some (.dzAxial (← parseRat? lo) (← parseRat? hi))
   | ["dzradial", lo, hi] => do some (.dzRadial (← parseRat? lo) (← parseRat? hi))
-  | ["exp", x, y, z] => do some (.exp (← parseNatQ? x) (← parseNatQ? y) (← parseNatQ? z))
+  | ["exp", x, y, z] =>
+    match parseNatQ? x, parseNatQ? y, parseNatQ? z with
+    | some a, some b, some c => some (.exp a b c)
+    | _, _, _ => do
+      -- positive, not all natural: only fixed-point inputs are in the modelled domain (see `Mod.expFrac`)
+      let a ← parseRat? x; let b ← parseRat? y; let c ← parseRat? z
+      if 0 < a && 0 < b && 0 < c then some .expq else none
   | ["dscale"] => some .dscale
   | ["dlerp", s] => do some (.dlerp (← parseRat? s))
   | ["accby", a] => do
